@@ -17,6 +17,7 @@ import (
 	"testing/synctest"
 	"time"
 
+	"github.com/google/jsonschema-go/jsonschema"
 	"github.com/modelcontextprotocol/go-sdk/mcp"
 	"github.com/modelcontextprotocol/go-sdk/verif/memhttp"
 	"github.com/modelcontextprotocol/go-sdk/verif/vt"
@@ -26,7 +27,7 @@ import (
 func TestMain(m *testing.M) { vt.Main(m) }
 
 type Step struct {
-	Kind   string `json:"kind"` // note detached finish after duppair resupd
+	Kind   string `json:"kind"` // note detached finish after duppair resupd sreq
 	S      int    `json:"s"`
 	R      int    `json:"r"`
 	T      int    `json:"t,omitempty"` // resupd: the session whose subscribed resource is reported as updated
@@ -62,7 +63,7 @@ func genScript(rt *rapid.T, race bool) Script {
 	}
 	n := rapid.IntRange(1, 40).Draw(rt, "n")
 	for i := 0; i < n; i++ {
-		st := Step{Kind: rapid.SampledFrom([]string{"note", "note", "note", "detached", "finish", "after", "duppair", "resupd"}).Draw(rt, "kind")}
+		st := Step{Kind: rapid.SampledFrom([]string{"note", "note", "note", "detached", "finish", "after", "duppair", "resupd", "sreq", "sreq"}).Draw(rt, "kind")}
 		st.S = rapid.IntRange(0, s.Sessions-1).Draw(rt, "s")
 		st.R = rapid.IntRange(0, s.Calls[st.S]-1).Draw(rt, "r")
 		if st.Kind == "resupd" {
@@ -141,11 +142,22 @@ func runInBubble(s Script) (res vt.Result) {
 			mu.Unlock()
 			req.Session.NotifyProgress(c, &mcp.ProgressNotificationParams{ProgressToken: a.Tag, Progress: float64(n), Message: fmt.Sprintf("%s|%s|%d", a.Tag, kind, n)})
 		}
+		// sreq: a server->client request (elicitation/create) carrying the tag; it is issued from its own
+		// goroutine because nobody may answer it before the session ends.
+		sreq := func(c context.Context, kind string) {
+			mu.Lock()
+			seq[a.Tag]++
+			n := seq[a.Tag]
+			mu.Unlock()
+			go req.Session.Elicit(c, &mcp.ElicitParams{Message: fmt.Sprintf("%s|%s|%d", a.Tag, kind, n), RequestedSchema: &jsonschema.Schema{Type: "object"}})
+		}
 		ch := chanOf(a.Tag)
 		for c := range ch {
 			switch c.kind {
 			case "note":
 				note(ctx, "inreq")
+			case "sreq":
+				sreq(ctx, "sreq")
 			case "detached":
 				note(context.Background(), "detached")
 			case "resupd":
@@ -158,6 +170,8 @@ func runInBubble(s Script) (res vt.Result) {
 					for c := range ch {
 						if c.kind == "after" {
 							note(late, "after")
+						} else if c.kind == "sreq" {
+							sreq(late, "sreqafter")
 						} else if c.kind == "detached" {
 							note(context.Background(), "detached")
 						}
@@ -266,7 +280,7 @@ func runInBubble(s Script) (res vt.Result) {
 		if s.Stateless {
 			continue
 		}
-		ex := do("POST", `{"jsonrpc":"2.0","id":"hs","method":"initialize","params":{"protocolVersion":"2025-06-18","capabilities":{},"clientInfo":{"name":"raw","version":"0"}}}`, "")
+		ex := do("POST", `{"jsonrpc":"2.0","id":"hs","method":"initialize","params":{"protocolVersion":"2025-06-18","capabilities":{"elicitation":{}},"clientInfo":{"name":"raw","version":"0"}}}`, "")
 		if ex == nil || ex.Status() != 200 {
 			res.Failf("harness: initialize of session %d failed", i)
 			return
@@ -349,6 +363,7 @@ func runInBubble(s Script) (res vt.Result) {
 		return out
 	}
 
+	sreqOnRequest, sreqOnStandalone := false, false
 	check := func(step int) {
 		for _, c := range calls {
 			resp := 0
@@ -369,6 +384,9 @@ func runInBubble(s Script) (res vt.Result) {
 				}
 				if f.tag != c.tag {
 					res.Failf("step %d: the exchange of %s carries a message tagged %s (%s)", step, c.tag, f.tag, f.kind)
+				}
+				if f.kind == "sreq" {
+					sreqOnRequest = true
 				}
 				if f.kind == "detached" {
 					res.Failf("step %d: a notification issued outside any request (tag %s) travelled on the request exchange of %s", step, f.tag, c.tag)
@@ -402,15 +420,18 @@ func runInBubble(s Script) (res vt.Result) {
 				if !strings.HasPrefix(f.tag, fmt.Sprintf("s%dr", i)) {
 					res.Failf("step %d: the standalone stream of session %d carries a message of %s", step, i, f.tag)
 				}
-				if f.kind == "inreq" && !s.JSON {
-					res.Failf("step %d: a notification issued while handling request %s (SSE mode) travelled on the standalone stream instead of the request's stream", step, f.tag)
+				if f.kind == "sreq" || f.kind == "sreqafter" {
+					sreqOnStandalone = true
+				}
+				if (f.kind == "inreq" || f.kind == "sreq") && !s.JSON {
+					res.Failf("step %d: a %s message issued while handling request %s (SSE mode) travelled on the standalone stream instead of the request's stream", step, f.kind, f.tag)
 				}
 			}
 		}
 	}
 
 	var desc strings.Builder
-	dupN := 0
+	dupN, sreqN := 0, 0
 	for i, st := range s.Steps {
 		if st.Kind == "duppair" {
 			if s.Stateless {
@@ -474,6 +495,9 @@ func runInBubble(s Script) (res vt.Result) {
 		if kind == "resupd" && (c.finished || s.Stateless) {
 			continue
 		}
+		if kind == "sreq" {
+			sreqN++
+		}
 		select {
 		case chanOf(c.tag) <- cmd{kind: kind, t: st.T}:
 		default:
@@ -524,6 +548,15 @@ func runInBubble(s Script) (res vt.Result) {
 	res.NonTrivial = overlap
 	res.Desc = fmt.Sprintf("%v|%v|%v|%v|%v|%s", s.Stateless, s.JSON, s.Store, s.Calls, s.Standalone, desc.String())
 	res.Class(fmt.Sprintf("stateless_%v_json_%v", s.Stateless, s.JSON))
+	if sreqN > 0 {
+		res.Class("server_to_client_request")
+	}
+	if sreqOnRequest {
+		res.Class("server_request_seen_on_request_stream")
+	}
+	if sreqOnStandalone {
+		res.Class("server_request_seen_on_standalone_stream")
+	}
 	return res
 }
 
